@@ -4,19 +4,88 @@ from . import _histcheck
 
 PROPERTY = 'C01'
 LEVEL = 'exploration'
-RULE = ('per element-content type: core = every sequence of <=3 additions (<=2 when the alphabet exceeds 12; thorough <=3, <=4 for alphabets <=8) and every <=1 addition (thorough <=2) followed by one removal / replacement / forward addition / shortcut, each serialised with intelligent_choice off and on; halo = seeded hostile histories (mixed, failure-biased, removal-heavy, shortcut, guided by shuffled valid words) with serialisations interleaved. A case is one history; non-trivial = it reached at least one operation; distinct = distinct operation string. Only normal returns of to_string are judged.')
+RULE = ('per element-content type: core = every sequence of <=3 additions (<=2 when the alphabet exceeds 12; thorough <=3, <=4 for alphabets <=8) and every <=1 addition (thorough <=2) followed by one removal / replacement / forward addition / shortcut, each serialised with intelligent_choice off and on; halo = seeded hostile histories (mixed, failure-biased, removal-heavy, shortcut, guided by shuffled valid words) with serialisations interleaved. A case is one history; non-trivial = it reached at least one operation; distinct = distinct operation string. Plus nested documents generated from the reference grammar and assembled through the API with the children of every level shuffled / reversed: every node of every serialisation that returns is validated. Only normal returns of to_string are judged.')
 ASSUMPTIONS = ['reference DFAs built from /verif/ref/musicxml_4_0.xsd are the schema (self-tested, cross-checked by C03)', 'children are minimal unchecked instances so only the parent level is judged; parents carry their schema-required attributes', 'witnesses are shrunk by delta debugging before classification; beyond a fixed number per pre-signature they are only counted']
 TIMEOUT = {'quick': 900, 'thorough': 5400}
 PROPS = ('C01',)
 
 
 def plan(tier, seed):
-    return [{'mode': 'repotests', 'cost': 3000}] + _histcheck.plan(lambda t: (genhist.n_core_additions(t, genhist.nadd_for(t, tier)) * 2 + genhist.n_core_mixed(t, 1 if tier == 'quick' else 2) * 2 + 400))
+    return [{'mode': 'repotests', 'cost': 3000}] + [{'mode': 'docs', 'slice': i, 'cost': 3000} for i in range(8)] + _histcheck.plan(lambda t: (genhist.n_core_additions(t, genhist.nadd_for(t, tier)) * 2 + genhist.n_core_mixed(t, 1 if tier == 'quick' else 2) * 2 + 400))
+
+
+def run_docs(shard, tier, seed):
+    """nested documents assembled through the API with the children of every level supplied in a shuffled order: every
+    checked node of every serialisation that returns is validated against the reference content model"""
+    import collections
+    import random
+    import xml.etree.ElementTree as ET
+    from .. import lib, docs
+    rnd = random.Random('%s:C01:docs:%d' % (seed, shard['slice']))
+    viol = []
+    c = collections.Counter()
+    evals = 0
+    nontriv = 0
+    samples = []
+
+    def build(el, order_mode):
+        cls = lib.cls_of_element(el.tag)
+        flat = ET.Element(el.tag, dict(el.attrib))
+        flat.text = el.text
+        obj = docs.build_api(flat, lib, check=True)
+        kids = list(el)
+        if order_mode == 'shuffle':
+            rnd.shuffle(kids)
+        elif order_mode == 'reverse':
+            kids.reverse()
+        for k in kids:
+            child = build(k, order_mode)
+            r = lib.call(obj.add_child, child)
+            if r[0] == 'exc':
+                c['additions_refused'] += 1      # an out-of-order child may be refused (C12 decides that); go on without it
+        return obj
+
+    names = [n for i, n in enumerate(ref.ELEMENT_NAMES) if i % 8 == shard['slice'] and ref.eltype(n) in ref.DFAS]
+    per = 3 if tier == 'quick' else 30
+    for n in names:
+        for k in range(per):
+            el = ref.gen_el(n, rnd, (ref.HEIGHT[n] or 0) + rnd.choice([1, 2]), {
+                'pattr': 0.2, 'maxkids': rnd.choice([3, 6]), 'skip_attrs': ('xml:lang', 'xml:space', 'name'),
+                'skip_elements': ('link', 'opus', 'part-link', 'miscellaneous-field')})
+            mode = rnd.choice(['shuffle', 'shuffle', 'reverse', 'document'])
+            evals += 1
+            try:
+                obj = build(el, mode)
+            except docs.BuildRefused:
+                c['builder_refused'] += 1
+                continue
+            for ic in (False, True):
+                r = lib.call(obj.to_string, ic)
+                if r[0] == 'exc':
+                    c['serialisation_refused'] += 1
+                    continue
+                nontriv += 1
+                c['serialisations_validated'] += 1
+                out = ET.fromstring(r[1])
+                for path_err in ref.validate_doc(out, checks=('children',)):
+                    word = list(path_err[3]) if len(path_err) > 3 else []
+                    t = path_err[2]
+                    viol.append({'sig': {'type': t, 'kind': 'invalid-word', 'mech': 'nested-document', 'insertion': mode},
+                                 'case': {'text': docs.to_text(el)[:3000], 'mode': mode, 'ic': ic},
+                                 'detail': {'path': path_err[0], 'word': word}})
+                    c['invalid_nodes'] += 1
+                c['nodes_validated'] += sum(1 for _ in out.iter())
+            if len(samples) < 2:
+                samples.append({'root': n, 'insertion_order': mode, 'elements': sum(1 for _ in el.iter())})
+    return {'evaluations': evals, 'distinct_nontrivial': nontriv, 'violations': viol, 'samples': samples,
+            'counters': dict(c, stdio_events=len(lib.STDIO_EVENTS))}
 
 
 def run_shard(shard, tier, seed):
     if shard.get('mode') == 'repotests':
         return _histcheck.run_repo_tests(PROPERTY)
+    if shard.get('mode') == 'docs':
+        return run_docs(shard, tier, seed)
     t = shard['type']
     n = genhist.nadd_for(t, tier)
     m = 1 if tier == 'quick' else 2
@@ -26,6 +95,8 @@ def run_shard(shard, tier, seed):
 
 
 def replay_case(rp):
+    if 'text' in rp['case']:
+        return {'violated': None, 'note': 'nested-document cases depend on the shuffle; rerun the docs shards with the recorded seed'}
     if 'hist' not in rp['case']:
         res = _histcheck.run_repo_tests(PROPERTY)
         return {'violated': bool(res['violations']), 'violations': res['violations'][:3]}
